@@ -408,6 +408,9 @@ def run_case(case):
     for k, v in probes.items():
         pr[k] = pr.get(k, 0) + v
     pr['tolerated_miss'] = sum(1 for h in out['history'] if h.get('tolerate'))
+    # lookups that returned a value kept in a file (long values under the small thresholds this check uses)
+    pr['file_backed_read'] = sum(1 for h in out['history'] if h['op'].get('op') in ('get', 'getitem', 'read', 'pop') and h.get('res')
+                                 and h['res'][0] == 'ok' and isinstance(h['res'][1], str) and h['res'][1][:1] in ('B', 'S'))
     return {'violations': violations, 'digest': out['digest'], 'steps': out['steps'], 'switches': out['switches'],
             'fired': out['fired'], 'probes': pr, 'virtual_s': out['virtual_s'], 'picks': out['picks'],
             'nontrivial': out['switches'] > 0,
